@@ -263,7 +263,7 @@ pub fn guard(stats: &Stats, min_classes: usize, need_panics: bool) {
         || stats.set_len("outcome_classes") < min_classes
         || (need_panics && stats.get("panicking_calls") == 0)
     {
-        machinery(&format!(
+        vacuous(&format!(
             "vacuous exploration: {} transitions, {} panicking calls, outcome classes {:?}",
             stats.get("transitions"),
             stats.get("panicking_calls"),
